@@ -85,7 +85,7 @@ Lemma clafer_tree_unfold : forall p i rs,
   clafer_tree p (Feature i rs) =
   Clf (clafer_group (Feature i rs)) (cl_safename (f_name i))
       (negb (Nat.eqb (List.length (f_attrs i)) 0))
-      (feat_is_optional p (Feature i rs))
+      (feat_is_optional p (Feature i rs) || in_any_number_group p (Feature i rs))
       (map (fun a => (cl_safename (a_name a), clafer_value (a_default a))) (f_attrs i))
       (clafer_kids (Feature i rs)).
 Proof.
@@ -96,7 +96,8 @@ Qed.
 Lemma cl_name_tree : forall p f, cl_name (clafer_tree p f) = cl_safename (name f).
 Proof. intros p [i rs]. reflexivity. Qed.
 
-Lemma cl_optional_tree : forall p f, cl_optional (clafer_tree p f) = feat_is_optional p f.
+Lemma cl_optional_tree : forall p f,
+  cl_optional (clafer_tree p f) = feat_is_optional p f || in_any_number_group p f.
 Proof. intros p [i rs]. reflexivity. Qed.
 
 Theorem clafer_none : forall σ p f, cl_none (lift σ) (clafer_tree p f) = none_selected σ f.
@@ -228,6 +229,8 @@ Theorem C11_identifiers : forall m d f a, clafer_write m = Ok d -> In f (get_fea
   In a (f_attrs (info f)) -> In (cl_safename (a_name a)) (map fst (cd_attrdecls d)).
 Proof.
   intros m d f a H Hf Ha. unfold clafer_write in H.
+  destruct (existsb (fun f => existsb (fun a => nonfinite_float (a_default a)) (f_attrs (info f))) (get_features m));
+    [discriminate H|].
   destruct (mapM (fun c => clafer_node (c_ast c)) (ctcs m)) as [cs|e]; [|discriminate H].
   inversion H; subst d; clear H. cbn [cd_attrdecls]. unfold clafer_attrdecls.
   rewrite map_map. cbn [fst].
@@ -271,7 +274,7 @@ Qed.
 
 Lemma cl_sem_unfold : forall σ g n a o ac kids,
   cl_sem σ (Clf g n a o ac kids) =
-  σ n && match g with
+  σ n && match (if default_gcard g then None else g) with
          | Some gr =>
              let (lo, hi) := group_bounds gr (List.length kids) in
              let k := Z.of_nat (List.length (filter (fun d => σ (cl_name d)) kids)) in
@@ -310,24 +313,27 @@ Qed.
 Lemma clafer_group_single : forall i r, rel_is_group r = true ->
   exists gr, clafer_group (Feature i [r]) = Some gr
     /\ group_bounds gr (List.length (r_children r))
-       = (r_min r, eff_max (r_max r) (List.length (r_children r))).
+       = (r_min r, eff_max (r_max r) (List.length (r_children r)))
+    /\ (default_gcard (Some gr) = true -> rel_is_cardinal r = true /\ r_min r = 0%Z /\ r_max r = (-1)%Z).
 Proof.
   intros i r Hg. unfold rel_is_group in Hg.
   unfold clafer_group, feat_is_alternative_group, feat_is_or_group, feat_is_cardinality_group,
     feat_is_mutex_group. cbn [rels existsb find]. rewrite !orb_false_r.
   destruct (rel_is_alternative r) eqn:Ea.
-  { exists GXor. split; [reflexivity|]. unfold rel_is_alternative in Ea.
+  { exists GXor. split; [reflexivity|]. split; [|intros Hd; discriminate Hd]. unfold rel_is_alternative in Ea.
     apply andb_prop in Ea. destruct Ea as [Ea _]. apply andb_prop in Ea. destruct Ea as [E1 E2].
     apply Z.eqb_eq in E1, E2. rewrite E1, E2. reflexivity. }
   destruct (rel_is_or r) eqn:Eor.
-  { exists GOr. split; [reflexivity|]. unfold rel_is_or in Eor.
+  { exists GOr. split; [reflexivity|]. split; [|intros Hd; discriminate Hd]. unfold rel_is_or in Eor.
     apply andb_prop in Eor. destruct Eor as [Eor _]. apply andb_prop in Eor. destruct Eor as [E1 E2].
     apply Z.eqb_eq in E1, E2. rewrite E1, E2. unfold nchildren, eff_max. cbn [group_bounds].
     destruct (Z.of_nat (List.length (r_children r)) =? -1)%Z; reflexivity. }
   destruct (rel_is_cardinal r) eqn:Ec.
-  { exists (GCardC (r_min r) (r_max r)). split; [reflexivity|]. reflexivity. }
+  { exists (GCardC (r_min r) (r_max r)). split; [reflexivity|]. split; [reflexivity|].
+    intros Hd. cbn [default_gcard] in Hd. apply andb_prop in Hd. destruct Hd as [Hd1 Hd2].
+    apply Z.eqb_eq in Hd1, Hd2. repeat split; assumption. }
   destruct (rel_is_mutex r) eqn:Emx.
-  { exists GMux. split; [reflexivity|]. unfold rel_is_mutex in Emx.
+  { exists GMux. split; [reflexivity|]. split; [|intros Hd; discriminate Hd]. unfold rel_is_mutex in Emx.
     apply andb_prop in Emx. destruct Emx as [Emx _]. apply andb_prop in Emx. destruct Emx as [E1 E2].
     apply Z.eqb_eq in E1, E2. rewrite E1, E2. reflexivity. }
   exfalso. unfold rel_is_cardinal in Ec. rewrite Ea, Eor, Emx in Ec.
@@ -361,8 +367,29 @@ Proof.
   intros r c Hc. unfold rnames. apply (in_names_child _ c _ Hc). apply name_in_names.
 Qed.
 
+(* no child of a feature whose relations are all solitary is a member of a [0..*] group *)
+Lemma solitary_not_any_number : forall i rs c,
+  forallb (fun r => rel_is_mandatory r || rel_is_optional r) rs = true ->
+  in_any_number_group (Some (Feature i rs)) c = false.
+Proof.
+  intros i rs c Hall. rewrite forallb_forall in Hall.
+  unfold in_any_number_group. cbn [rels]. apply existsb_false. intros r Hr.
+  destruct (solitary_flags r (Hall r Hr)) as (_ & _ & Hc & _). rewrite Hc. reflexivity.
+Qed.
+
+(* every member of a [0..*] group is one *)
+Lemma member_any_number : forall i r c,
+  rel_is_cardinal r = true -> r_min r = 0%Z -> r_max r = (-1)%Z -> In c (r_children r) ->
+  in_any_number_group (Some (Feature i [r])) c = true.
+Proof.
+  intros i r c Hc Hmin Hmax Hin. unfold in_any_number_group. cbn [rels existsb].
+  rewrite Hc, Hmin, Hmax. cbn [Z.eqb andb Pos.eqb]. rewrite orb_false_r.
+  unfold in_children. apply existsb_exists. exists c. split; [exact Hin|apply String.eqb_refl].
+Qed.
+
 (* one solitary relation of the feature F *)
 Lemma solitary_ok : forall σ i rs r,
+  forallb (fun r => rel_is_mandatory r || rel_is_optional r) rs = true ->
   NoDup (flat_map rnames rs) -> In r rs -> rel_is_mandatory r || rel_is_optional r = true ->
   (forall d, In d (r_children r) -> forall p, cl_sem (lift σ) (clafer_tree p d) = sem σ d) ->
   forallb (fun c => if lift σ (cl_name (clafer_tree (Some (Feature i rs)) c))
@@ -372,11 +399,12 @@ Lemma solitary_ok : forall σ i rs r,
           (r_children r)
   = rel_ok σ r.
 Proof.
-  intros σ i rs r Hnd Hr Hmo IH. unfold rel_ok, cs_ok.
+  intros σ i rs r Hall Hnd Hr Hmo IH. unfold rel_ok, cs_ok.
   destruct (rel_is_optional r) eqn:Eo.
   - destruct (optional_one r Eo) as (c & Hc & Hmin & Hmax). rewrite Hc in *. rewrite Hmin, Hmax.
     cbn [forallb List.length].
     rewrite cl_name_tree, lift_safename, cl_optional_tree, clafer_none, count_sel_one.
+    rewrite (solitary_not_any_number i rs c Hall), orb_false_r.
     rewrite (IH c (or_introl eq_refl)).
     assert (Hopt : feat_is_optional (Some (Feature i rs)) c = true).
     { unfold feat_is_optional. cbn [rels]. apply existsb_exists. exists r. split; [exact Hr|].
@@ -386,6 +414,7 @@ Proof.
     destruct (mandatory_one r Hmo) as (c & Hc & Hmin & Hmax). rewrite Hc in *. rewrite Hmin, Hmax.
     cbn [forallb List.length].
     rewrite cl_name_tree, lift_safename, cl_optional_tree, clafer_none, count_sel_one.
+    rewrite (solitary_not_any_number i rs c Hall), orb_false_r.
     rewrite (IH c (or_introl eq_refl)).
     assert (Hopt : feat_is_optional (Some (Feature i rs)) c = false).
     { unfold feat_is_optional. cbn [rels]. apply existsb_false. intros r' Hr'.
@@ -399,6 +428,16 @@ Proof.
         - rewrite <- Hn. apply name_in_rnames, Hc'. }
       subst r'. rewrite Eo in Eo'. discriminate Eo'. }
     rewrite Hopt. destruct (σ (name c)); cbn; rewrite ?andb_true_r; reflexivity.
+Qed.
+
+Lemma filter_length_le_c11 {A} (p : A -> bool) : forall l, (List.length (filter p l) <= List.length l)%nat.
+Proof. induction l as [|x l IH]; cbn [filter List.length]; [lia|]. destruct (p x); cbn [List.length]; lia. Qed.
+
+Lemma card_ok_any_number : forall σ cs, card_okb 0 (-1) (List.length cs) (count_sel σ cs) = true.
+Proof.
+  intros σ cs. unfold card_okb, eff_max, count_sel. change ((-1 =? -1)%Z) with true. cbv iota.
+  pose proof (filter_length_le_c11 (fun c => σ (name c)) cs) as Hle.
+  apply andb_true_intro. split; [apply Z.leb_le; lia|apply Z.leb_le; lia].
 Qed.
 
 Theorem clafer_tree_sem : forall σ p f, clafer_feature_ok f = true -> NoDup (names f) ->
@@ -418,19 +457,27 @@ Proof.
   rewrite clafer_tree_unfold, sem_unfold, cl_sem_unfold, lift_safename. f_equal.
   unfold clafer_rels_ok in Hrels.
   destruct (forallb (fun r => rel_is_mandatory r || rel_is_optional r) rs) eqn:Emo.
-  - rewrite (clafer_group_none i rs Emo). unfold clafer_kids. cbn [rels].
+  - rewrite (clafer_group_none i rs Emo). cbn [default_gcard]. unfold clafer_kids. cbn [rels].
     rewrite forallb_flat_map. apply forallb_ext_in. intros r Hr. rewrite forallb_map.
-    rewrite forallb_forall in Emo.
-    apply (solitary_ok σ i rs r Hnd' Hr (Emo r Hr)). intros d Hd q. apply (IH' r d Hr Hd q).
+    pose proof Emo as Emo'. rewrite forallb_forall in Emo'.
+    apply (solitary_ok σ i rs r Emo Hnd' Hr (Emo' r Hr)). intros d Hd q. apply (IH' r d Hr Hd q).
   - cbn [orb] in Hrels. destruct rs as [|r [|r' rs']]; try discriminate Hrels.
     apply andb_prop in Hrels. destruct Hrels as [Hrels _].
     apply andb_prop in Hrels. destruct Hrels as [Hg _].
-    destruct (clafer_group_single i r Hg) as (gr & Hgr & Hb).
-    rewrite Hgr. unfold clafer_kids. cbn [rels flat_map]. rewrite app_nil_r, map_length, Hb.
-    cbv beta iota zeta. rewrite kids_count.
-    cbn [forallb]. rewrite andb_true_r. unfold rel_ok, card_okb, count_sel, cs_ok.
-    f_equal. rewrite forallb_map. apply forallb_ext_in. intros d Hd.
-    rewrite cl_name_tree, lift_safename, clafer_none, (IH' r d (or_introl eq_refl) Hd). reflexivity.
+    destruct (clafer_group_single i r Hg) as (gr & Hgr & Hb & Hdef).
+    rewrite Hgr. unfold clafer_kids. cbn [rels flat_map]. rewrite app_nil_r.
+    cbn [forallb]. rewrite andb_true_r. unfold rel_ok, cs_ok.
+    destruct (default_gcard (Some gr)) eqn:Edef.
+    + (* the [0..*] group: written as Clafer's default, every member marked "?" *)
+      destruct (Hdef eq_refl) as (Hcard & Hmin & Hmax).
+      rewrite Hmin, Hmax, card_ok_any_number. cbn [andb].
+      rewrite forallb_map. apply forallb_ext_in. intros d Hd.
+      rewrite cl_name_tree, lift_safename, cl_optional_tree, clafer_none, (IH' r d (or_introl eq_refl) Hd).
+      rewrite (member_any_number i r d Hcard Hmin Hmax Hd), orb_true_r. reflexivity.
+    + rewrite map_length, Hb.
+      cbv beta iota zeta. rewrite kids_count. unfold card_okb, count_sel.
+      f_equal. rewrite forallb_map. apply forallb_ext_in. intros d Hd.
+      rewrite cl_name_tree, lift_safename, clafer_none, (IH' r d (or_introl eq_refl) Hd). reflexivity.
 Qed.
 
 Theorem C11_instances : forall m d σ, clafer_feature_ok (root m) = true -> NoDup (names (root m)) ->
@@ -438,12 +485,71 @@ Theorem C11_instances : forall m d σ, clafer_feature_ok (root m) = true -> NoDu
   clafer_sat (lift σ) d = valid m σ.
 Proof.
   intros m d σ Hok Hnd Hwf H. unfold clafer_write in H.
+  destruct (existsb (fun f => existsb (fun a => nonfinite_float (a_default a)) (f_attrs (info f))) (get_features m));
+    [discriminate H|].
   destruct (mapM (fun c => clafer_node (c_ast c)) (ctcs m)) as [cs|e] eqn:E; [|discriminate H].
   inversion H; subst d; clear H. unfold clafer_sat, valid. cbn [cd_root cd_ctcs].
   rewrite (clafer_tree_sem σ None (root m) Hok Hnd). f_equal.
   apply (mapM_forallb _ _ _ _ _ E). intros c e Hc He.
   rewrite Forall_forall in Hwf. apply (clafer_node_sound (c_ast c) e σ (Hwf c Hc) He).
 Qed.
+
+(* ================================================================== examples for the corrected writer *)
+
+(* a selection given by the list of its selected names *)
+Definition sel_of (l : list string) : string -> bool := fun s => existsb (String.eqb s) l.
+
+(* R with ONE relation [0..*] over the leaves a, b *)
+Definition any_number_model : fm :=
+  {| root := Feature (mk_info "R") [Relation 0 (-1) [leaf "a"; leaf "b"]]; ctcs := [] |}.
+
+(* the document of the corrected writer: both members of the [0..*] group are marked "?" *)
+Definition any_number_doc : cdoc :=
+  {| cd_attrdecls := [];
+     cd_root := Clf (Some (GCardC 0 (-1))) "R" false false []
+                    [Clf None "a" false true [] []; Clf None "b" false true [] []];
+     cd_ctcs := []; cd_instance_of := "R" |}.
+
+(* what the writer produced before the fix: the two members NOT marked *)
+Definition any_number_doc_old : cdoc :=
+  {| cd_attrdecls := [];
+     cd_root := Clf (Some (GCardC 0 (-1))) "R" false false []
+                    [Clf None "a" false false [] []; Clf None "b" false false [] []];
+     cd_ctcs := []; cd_instance_of := "R" |}.
+
+Example clafer_any_number_group :
+  clafer_write any_number_model = Ok any_number_doc
+  /\ map cl_optional (match cd_root any_number_doc with Clf _ _ _ _ _ kids => kids end) = [true; true]
+  /\ clafer_sat (lift (sel_of ["R"])) any_number_doc = true
+  /\ clafer_sat (lift (sel_of ["R"; "a"])) any_number_doc = true
+  /\ clafer_sat (lift (sel_of ["R"; "b"])) any_number_doc = true
+  /\ clafer_sat (lift (sel_of ["R"; "a"; "b"])) any_number_doc = true.
+Proof. vm_compute. repeat split; reflexivity. Qed.
+
+(* under the corrected semantics the old document is satisfied ONLY by the selection with both a and b *)
+Example clafer_old_reading_refuted :
+  clafer_sat (lift (sel_of ["R"])) any_number_doc_old = false
+  /\ clafer_sat (lift (sel_of ["R"; "a"])) any_number_doc_old = false
+  /\ clafer_sat (lift (sel_of ["R"; "b"])) any_number_doc_old = false
+  /\ clafer_sat (lift (sel_of ["R"; "a"; "b"])) any_number_doc_old = true
+  /\ valid any_number_model (sel_of ["R"]) = true
+  /\ valid any_number_model (sel_of ["R"; "a"]) = true
+  /\ valid any_number_model (sel_of ["R"; "b"]) = true
+  /\ valid any_number_model (sel_of ["R"; "a"; "b"]) = true.
+Proof. vm_compute. repeat split; reflexivity. Qed.
+
+(* a model whose root has an attribute with a non-finite default *)
+Definition inf_attr_model : fm :=
+  {| root := Feature {| f_name := "R"; f_abstract := VBool false; f_type := TBoolean; f_cmin := 1; f_cmax := 1;
+                        f_attrs := [ {| a_name := "x"; a_dom := None; a_default := VFloat "inf"; a_null := VNone |} ] |}
+                     [];
+     ctcs := [] |}.
+
+Example clafer_float_literals :
+  clafer_value (VFloat "1e+16") = "10000000000000000.0"%string
+  /\ clafer_value (VFloat "1e-05") = "0.00001"%string
+  /\ clafer_write inf_attr_model = Err FlamaException.
+Proof. vm_compute. repeat split; reflexivity. Qed.
 
 (* ------------------------------------------------------------------ assumptions *)
 Print Assumptions unsafename_safename.
@@ -453,3 +559,6 @@ Print Assumptions C11_operators.
 Print Assumptions C11_identifiers.
 Print Assumptions clafer_tree_sem.
 Print Assumptions C11_instances.
+Print Assumptions clafer_any_number_group.
+Print Assumptions clafer_old_reading_refuted.
+Print Assumptions clafer_float_literals.
